@@ -32,7 +32,8 @@ fn djb2(name: &[u8]) -> u32 { let mut h: u32 = 5381; for &c in name { h = h.wrap
 fn elf_hash(name: &[u8]) -> u32 { let mut h: u32 = 0; for &c in name { h = (h << 4).wrapping_add(c as u32); let g = h & 0xf000_0000; if g != 0 { h ^= g >> 24; } h &= !g; } h }
 
 /// (file, offsets of the section header table, program header table) for class / byte order
-fn base(little: bool, elf64: bool) -> (Vec<u8>, usize, usize, usize, usize, Vec<(usize, usize)>) {
+fn base(little: bool, elf64: bool) -> (Vec<u8>, usize, usize, usize, usize, Vec<(usize, usize)>) { base_with(little, elf64, true) }
+fn base_with(little: bool, elf64: bool, compressed: bool) -> (Vec<u8>, usize, usize, usize, usize, Vec<(usize, usize)>) {
     let mk = || W { b: Vec::new(), little, elf64 };
     let shstr: &[u8] = b"\0.shstrtab\0.dynsym\0.dynstr\0.gnu.version\0.gnu.version_r\0.gnu.version_d\0.hash\0.gnu.hash\0.dynamic\0.note\0.rela\0.rel\0.symtab\0.strtab\0.zdebug\0";
     let nm = |s: &str| -> u32 { let pat = [s.as_bytes(), b"\0"].concat(); shstr.windows(pat.len()).position(|w| w == &pat[..]).unwrap() as u32 };
@@ -76,7 +77,7 @@ fn base(little: bool, elf64: bool) -> (Vec<u8>, usize, usize, usize, usize, Vec<
         Sec { name: nm(".rel"), ty: abi::SHT_REL, flags: 2, link: 2, info: 0, align: 8, entsize: re, data: rel.b },
         Sec { name: nm(".symtab"), ty: abi::SHT_SYMTAB, flags: 0, link: 14, info: 1, align: 8, entsize: se, data: symtab.b },
         Sec { name: nm(".strtab"), ty: abi::SHT_STRTAB, flags: 0, link: 0, info: 0, align: 1, entsize: 0, data: strtab.to_vec() },
-        Sec { name: nm(".zdebug"), ty: abi::SHT_PROGBITS, flags: abi::SHF_COMPRESSED as u64, link: 0, info: 0, align: 1, entsize: 0, data: z.b },
+        Sec { name: nm(".zdebug"), ty: abi::SHT_PROGBITS, flags: if compressed { abi::SHF_COMPRESSED as u64 } else { 0 }, link: 0, info: 0, align: 1, entsize: 0, data: z.b },
     ];
     let (ehsize, phentsize, shentsize) = if elf64 { (64usize, 56usize, 64usize) } else { (52, 32, 40) };
     let nph = 3usize;
@@ -182,9 +183,11 @@ pub fn check_c01(c: &FileCase) -> Result<(), String> {
     exercise(&c.file)
 }
 
-pub fn enumerate_c01(n: usize, seed: u64) -> Vec<FileCase> {
+pub fn enumerate_c01(n: usize, seed: u64) -> Vec<FileCase> { enumerate_files(n, seed, true) }
+/// the same family; `compressed == false` leaves SHF_COMPRESSED off (and never sets it by a corruption of sh_flags): the stream comparison's scope
+pub fn enumerate_files(n: usize, seed: u64, compressed: bool) -> Vec<FileCase> {
     let mut r = Lcg(seed ^ 0xc01); let mut out = Vec::with_capacity(n);
-    let bases: Vec<(bool, bool, (Vec<u8>, usize, usize, usize, usize, Vec<(usize, usize)>))> = [(true, true), (true, false), (false, true), (false, false)].iter().map(|&(l, c)| (l, c, base(l, c))).collect();
+    let bases: Vec<(bool, bool, (Vec<u8>, usize, usize, usize, usize, Vec<(usize, usize)>))> = [(true, true), (true, false), (false, true), (false, false)].iter().map(|&(l, c)| (l, c, base_with(l, c, compressed))).collect();
     for i in 0..n {
         let (little, elf64, (file, shoff, shentsize, ehsize, phentsize, extents)) = &bases[i % 4];
         let (little, elf64) = (*little, *elf64);
@@ -196,7 +199,7 @@ pub fn enumerate_c01(n: usize, seed: u64) -> Vec<FileCase> {
                 // (offset, width) of a header field: section header fields, program header fields, ELF header fields
                 let (off, wd, nm) = match r.next(10) {
                     0..=5 => { let s = r.next(16) as usize; let base = shoff + s * shentsize;
-                        let fld = r.next(10) as usize;
+                        let mut fld = r.next(10) as usize; if !compressed && fld == 2 { fld = 3; }
                         let (o, w) = if elf64 { [(0, 4), (4, 4), (8, 8), (16, 8), (24, 8), (32, 8), (40, 4), (44, 4), (48, 8), (56, 8)][fld] } else { [(0, 4), (4, 4), (8, 4), (12, 4), (16, 4), (20, 4), (24, 4), (28, 4), (32, 4), (36, 4)][fld] };
                         (base + o, w, format!("shdr[{}].{}", s, ["sh_name", "sh_type", "sh_flags", "sh_addr", "sh_offset", "sh_size", "sh_link", "sh_info", "sh_addralign", "sh_entsize"][fld])) }
                     6 | 7 => { let p = r.next(3) as usize; let base = ehsize + p * phentsize; let fld = r.next(8) as usize;
